@@ -500,6 +500,8 @@ def _tag1(op, v):
         names = [v.ch[op[1]][c] for c in v.cols]
         if _ties(names) or any(n in v.obs or n in v.desc for n in names):
             return None
+        if 'bins' in v.obs or 'bins' in v.desc:
+            return None      # text of the 'bins' descriptor is not modelled
         if not op[2]:     # default channel detection = all float columns: not admissible with float descriptors
             if v.fl or any(isinstance(x, float) for n in v.obs for x in v.obs[n].values()) \
                     or any(isinstance(x, float) for x in v.desc.values()):
@@ -981,7 +983,8 @@ def tier_c(run, thorough):
     bd = Bounded(run, 'C11/labels', 'C11/split-subset-merge-average/oracle/labels',
                  'ALL label sequences of length 1..%d over 3 values (int and str labels, array descriptors; list descriptors '
                  'for length <= 3) on the obs / channel / time axis of 2x2[x2]-extended flat and temporal datasets; '
-                 'split+merge, subset, odd_even_split, average_dataset_by' % L, exhaustive=True, function='split_obs')
+                 'split+merge, subset, odd_even_split, average_dataset_by%s' % (
+                     L, ' (length 6: int labels on flat obs / flat channel / temporal time only)' if thorough else ''), exhaustive=True, function='split_obs')
     fn = {('split', 'obs'): 'split_obs', ('split', 'channel'): 'split_channel', ('split', 'time'): 'split_time',
           ('subset', 'obs'): 'subset_obs', ('subset', 'channel'): 'subset_channel', ('subset', 'time'): 'subset_time',
           ('odd_even', 'obs'): 'odd_even_split', ('average', 'obs'): 'average_dataset_by'}
@@ -1081,7 +1084,8 @@ def tier_c(run, thorough):
     for s in temp_shapes:
         bases.append(_base_case('temporal', s, seed=sum(s), container='array', tm_extra=True, tmono=True))
         bases.append(_base_case('temporal', s, seed=sum(s) + 1, container='array', tm_extra=False, tmono=(s[2] < 3)))
-    bases.append(_base_case('temporal', (3, 2, 3), seed=4, container='list', tm_extra=True, tmono=False))
+    bases.insert(3, _base_case('temporal', (2, 2, 3), seed=4, container='list', tm_extra=True, tmono=False))
+    bases.insert(4, _base_case('temporal', (2, 2, 2), seed=5, container='list', tm_extra=False, tmono=True))
     if thorough:
         bases.append(_base_case('flat', (5, 3, 1), seed=11, container='array'))
         bases.append(_base_case('temporal', (4, 3, 4), seed=12, container='array', tm_extra=False, tmono=False))
